@@ -30,8 +30,17 @@ def raw_field(ty, field):
     return False
 
 
+SKIP_INV = {
+    # the renumbered identifiers' range depends on the values written into the renumber map inside a
+    # loop (Some(new) < |surviving nodes|): not within the invariant templates; decided by the
+    # structural rules COVER / FRESH / GUARD / PAIR instead (DESIGN §7, C11)
+    "Hypergraph::<O, A>::delete_nodes_witness", "Hypergraph::<O, A>::delete_nodes",
+    "OpenHypergraph::<O, A>::delete_nodes",
+}
+
+
 def skip_inv(path):
-    return False
+    return any(path.endswith(s) for s in SKIP_INV)
 
 
 def after_entry(sc, res):
@@ -50,6 +59,24 @@ DOCUMENTED_REQUIRES = {
     ("strict::graph::dense_relative_indegree", "assert_eq!"): "comment: adjacency.len() = f.target()",
     ("strict::graph::sparse_relative_indegree", "assert_eq!"): "comment: a.len() = f.target()",
 }
+
+
+# Documented panics that are part of the stated behaviour wherever they are reached
+DOCUMENTED_PANICS = {
+    ("lax::hypergraph::Hypergraph::<O, A>::delete_edges", "assert!"):
+        "doc: 'Panics if any edge id is out of bounds'",
+    ("lax::hypergraph::Hypergraph::<O, A>::delete_nodes_witness", "assert!"):
+        "doc: 'Panics if any node id is out of bounds'",
+    ("lax::open_hypergraph::OpenHypergraph::<O, A>::to_strict", "unwrap on Err"):
+        "to_strict: pending unifications are label-consistent (C10 quantifier; doc: 'any valid lax::Hypergraph must be quotientable')",
+}
+
+
+def documented_panic(fn_path, what):
+    for (suffix, w), why in DOCUMENTED_PANICS.items():
+        if fn_path.endswith(suffix) and what == w:
+            return why
+    return None
 
 
 def documented_require(fn_path, what):
@@ -85,6 +112,19 @@ def entry_assumptions(fn_path, names, args, st, sc=None, fr0=None):
     if fn_path.endswith("strict::hypergraph::arrow::successors"):
         st.add_bound(d["frontier"].t, t_len(d["adjacency"].f["sources"].f["table"].t))
         out.append("frontier: node indices")
+    n_nodes = None
+    if "self" in d and isinstance(d["self"], VRec) and d["self"].ty in (inv.LH, inv.LOH):
+        h = d["self"] if d["self"].ty == inv.LH else d["self"].f["hypergraph"]
+        n_nodes = t_len(h.f["nodes"].t)
+        n_edges = t_len(h.f["edges"].t)
+        name = fn_path.split("::")[-1]
+        if name == "unify":
+            st.add_ge(n_nodes - d["v"].p - 1)
+            st.add_ge(n_nodes - d["w"].p - 1)
+            out.append("unify(v, w): node identifiers are valid (returned by the builder, C11)")
+        if name in ("add_edge_source", "add_edge_target"):
+            st.add_ge(n_edges - d["edge_id"].p - 1)
+            out.append("add_edge_*: the edge identifier is valid (doc: panics if out of bounds)")
     if fn_path.endswith("strict::eval::eval"):
         st.add_eq(t_len(d["s"].t) - t_len(d["f"].f["s"].f["table"].t))
         out.append("eval(f, s, apply): one input value per source position (doc: 'specified input values s')")
@@ -108,3 +148,24 @@ def entry_assumptions(fn_path, names, args, st, sc=None, fr0=None):
         del I.obligations[n0:]
         out.append("c : Optic::map_object(a) -> Optic::map_object(b) (c is an optic image of a diagram a -> b)")
     return out
+
+
+def override_args(fn_path, names, args, st):
+    """Documented argument conditions that change the *shape* of a symbolic argument."""
+    d = dict(zip(names, args))
+    name = fn_path.split("::")[-1]
+    if name == "new_edge" and "interface" in d and "self" in d:
+        # `interface: impl Into<Hyperedge>` — a hyperedge over valid node identifiers
+        import lax_model
+        slf = d["self"]
+        from values import VMutRef
+        if isinstance(slf, VMutRef):
+            slf = st.env[slf.place[0]]
+        h = slf if slf.ty == inv.LH else slf.f["hypergraph"]
+        n = t_len(h.f["nodes"].t)
+        e = VRec(inv.LEDGE, {"sources": VSeq(leaf("interface.sources")), "targets": VSeq(leaf("interface.targets"))})
+        st.add_bound(leaf("interface.sources"), n)
+        st.add_bound(leaf("interface.targets"), n)
+        args[names.index("interface")] = e
+        return ["new_edge(x, interface): the interface mentions valid node identifiers (C11)"]
+    return []
